@@ -847,6 +847,8 @@ def _balance_chunksizes(chunks: tuple[int, ...]) -> tuple[int, ...]:
     new_chunks : tuple[int, ...]
         New chunks for Dask array with balanced sizes.
     """
+    if sum(chunks) == 0:
+        return chunks
     median_len = np.median(chunks).astype(int)
     n_chunks = len(chunks)
     eps = median_len // 2
